@@ -2,5 +2,5 @@
 EXTENDS MC_Auth
 c_NoDevs == {}
 \* deviations of the current tree (DEV_OracleSigIgnored was repaired by 873f403)
-c_CodeDevs == {"DEV_ChallengeNoOwner", "DEV_OperatorBySender"}
+c_CodeDevs == {"DEV_ChallengeNoOwner", "DEV_OperatorBySender", "DEV_OracleSignerInfoCount"}
 =============================================================================
